@@ -1,6 +1,8 @@
 //! Shim over `memchr::verif` so the harness also builds against a memchr
 //! compiled without `--cfg memchr_verif` (everything becomes a no-op).
 
+#[allow(unused_imports)]
+use crate::prelude::*;
 #[cfg(memchr_verif)]
 mod imp {
     pub use memchr::verif::{
